@@ -4,7 +4,9 @@
 #include "common.h"
 #include <gmssl/sm2_z256.h>
 
-extern const uint64_t SM2_Z256_P[4], SM2_Z256_NEG_P[4], SM2_Z256_P_PRIME[4], SM2_Z256_2e512modp[4],
+/* SM2_Z256_2e512modp only exists in the portable C back-end */
+extern const uint64_t SM2_Z256_2e512modp[4] __attribute__((weak));
+extern const uint64_t SM2_Z256_P[4], SM2_Z256_NEG_P[4], SM2_Z256_P_PRIME[4],
 	SM2_Z256_SQRT_EXP[4], SM2_Z256_N[4], SM2_Z256_N_MINUS_ONE[4], SM2_Z256_NEG_N[4], SM2_Z256_N_PRIME[4],
 	SM2_Z256_N_MINUS_TWO[4], SM2_Z256_2e512modn[4], SM2_Z256_MODP_MONT_B[4];
 extern const uint64_t sm2_z256_pre_comp[37][64 * 4 * 2];
@@ -109,7 +111,7 @@ static void handle(size_t nw, char **w) {
 		if (!strcmp(w[1], "P")) { c = SM2_Z256_P; if (memcmp(c, sm2_z256_prime(), 32)) printf("ACCESSOR-DIFFERS "); }
 		else if (!strcmp(w[1], "NEG_P")) c = SM2_Z256_NEG_P;
 		else if (!strcmp(w[1], "P_PRIME")) c = SM2_Z256_P_PRIME;
-		else if (!strcmp(w[1], "MODP_2E512")) c = SM2_Z256_2e512modp;
+		else if (!strcmp(w[1], "MODP_2E512")) { if (&SM2_Z256_2e512modp[0]) c = SM2_Z256_2e512modp; else { printf("ABSENT"); return; } }
 		else if (!strcmp(w[1], "SQRT_EXP")) c = SM2_Z256_SQRT_EXP;
 		else if (!strcmp(w[1], "N")) { c = SM2_Z256_N; if (memcmp(c, sm2_z256_order(), 32)) printf("ACCESSOR-DIFFERS "); }
 		else if (!strcmp(w[1], "N_MINUS_ONE")) { c = SM2_Z256_N_MINUS_ONE; if (memcmp(c, sm2_z256_order_minus_one(), 32)) printf("ACCESSOR-DIFFERS "); }
